@@ -14,56 +14,73 @@ from vp.framework import (Violation, Rec, VERIF, exception_to_violation,
                           HarnessError)
 
 RULE = ("Rule-based state machine (<= 8 steps after initialisation) over "
-        "{compute, misfit, gradient, jvec(v_i), jtvec(w_i) with TWO vectors "
+        "{compute, observe, misfit, gradient, jvec(v_i), jtvec(w_i) with TWO "
+        "vectors "
         "each (also as (1,nx,ny,nz) array / DataArray), get_efield/get_hfield "
         "of every source-frequency pair by key or by float frequency, "
         "inspect (repr, html, print_grid_info, print_solver_info, get_grid, "
         "get_model, get_efield_info), clean(computed|keepresults|all), "
         "copy(what), to_dict/from_dict(what), to_file/from_file(h5|npz|json "
         "x what), model replacement + clean(all|computed), fork-and-mutate, "
-        "detach (continue with the copy while the original is driven on)} on "
-        "small problems: isotropic / VTI, 8x6x6 cells, 2 sources incl. a "
-        "magnetic one, 2 frequencies, 3 receivers incl. a relative and a "
-        "magnetic one, observed data with a NaN; gridding 'same' or 'input' "
-        "(computational grid 6x8x6 != model grid); survey 'plain' (unit "
-        "strengths, scalar noise) or 'rich' (strength 2.5 / -0.7, dipole "
-        "length 30, array-valued noise_floor and relative_error); in memory "
-        "and file based, tol != tol_gradient.  After every query the "
-        "reported synthetic data, misfit, gradient, jvec, jtvec, fields must "
-        "equal those of a FRESH simulation of the current model (computed "
-        "lazily once per process): max-norm AND, for data / jvec / fields, "
+        "detach (the run continues with the copy while the original is "
+        "driven on: other model, clean, gradient, in-place edits)} on small "
+        "problems: isotropic / VTI, 8x6x6 cells, 2 sources incl. a magnetic "
+        "one, 2 frequencies, 3 receivers incl. a relative and a magnetic "
+        "one, observed data with a NaN; either gridding 'same' with unit "
+        "source strengths and scalar noise_floor / relative_error (the "
+        "problems of the earlier rounds) or gridding 'input' (computational "
+        "grid 6x8x6 != model grid) / 'dict' (model grid for one "
+        "source-frequency pair, the 6x8x6 grid for the others) with "
+        "strengths 2.5 / -0.7, dipole length 30 and array-valued "
+        "noise_floor / relative_error; in memory and file based, tol != "
+        "tol_gradient (quick tier: 'input' with the isotropic, 'dict' with "
+        "the VTI problem only).  observe = compute(observed=True, add_noise=False) "
+        "is an operation too: from then on the references for misfit and "
+        "gradient are those of a fresh simulation whose observed data are "
+        "the fresh synthetic data of that model.  After every query the "
+        "reported "
+        "synthetic data, misfit, gradient, jvec, jtvec, fields must equal "
+        "those of a FRESH simulation of the current model (computed lazily, "
+        "once per process): in the max-norm and, for data / jvec / fields, "
         "per entry; the solver info must report tol (forward) / "
-        "tol_gradient (back-propagation) and a copy / reloaded simulation "
-        "must carry the options of the fresh one; exceptions on documented "
+        "tol_gradient (back-propagation); a copy / reloaded simulation must "
+        "carry the options of the fresh one; exceptions on documented "
         "operations are violations; a mutated copy/reloaded simulation must "
         "not affect its original and vice versa.  In addition every ordered "
         "pair of state-changing operations (quick: 15 operations, thorough: "
-        "28) is enumerated after a rotating prefix (gradient / compute / one "
-        "efield / jtvec / nothing), rotating configuration (incl. "
-        "file-based) and followed by misfit, gradient and a rotating third "
-        "query.  Generator branches that are switched off because emg3d "
-        "fails them (see ENABLE_* flags): gridding='dict', "
-        "compute(observed=True).  "
+        "29) is enumerated after a rotating prefix (gradient every second "
+        "time, else compute / one efield / jtvec / nothing), with rotating "
+        "problem (file based one in 19) and followed by misfit, gradient "
+        "and a rotating last step (jvec(v1), jtvec(w1), e/h-fields, "
+        "synthetic, fork by copy / by to_dict without deep copy, nothing).  "
         "Non-trivial = a query after a state-changing operation other than "
         "compute; distinct by history.")
 ASSUMPTIONS = [
     "equality thresholds, max-norm: data/misfit/fields 1e-6 (1e4 x tol), "
     "gradient / jvec / jtvec 1e-3 (1e2 x tol_gradient) of the max-norm; per "
-    "entry: synthetic 1e-5 |ref_i|, jvec 1e-2 |ref_i|, e/h-field 1e-5 "
-    "|ref_i| + 1e-8 max|ref|, each widened to 20 x the entry's own solver "
-    "noise |ref_i(tol) - ref_i(tol/1e3)| measured at problem build time.  "
-    "Measured solver noise (tol=1e-10, tol_gradient=1e-5 against 1e-14): "
-    "synthetic <= 5.3e-8, jvec <= 3.6e-4, fields <= 5.1e-8 per entry, so the "
-    "margins are >= 190 / 28 / 190; gradient / jtvec have a per-cell noise "
-    "of up to 31 % in small cells and 1.4e-4 of the max-norm, therefore no "
-    "per-cell comparison is made for them.  On the pinned tree the results "
-    "were bit-identical in all explored histories",
+    "entry: synthetic 1e-5 |ref_i|, jvec 3e-2 |ref_i|, e/h-field 1e-5 "
+    "|ref_i| + 1e-7 max|ref|; those of synthetic and fields are widened to "
+    "20 x the entry's own solver noise |ref_i(tol) - ref_i(tol/1e3)| "
+    "measured from fresh simulations, but to at most 0.3 |ref_i|.  Measured "
+    "solver noise per entry over all problems, both models and vectors "
+    "(tol=1e-10, tol_gradient=1e-5 against 1e-14): synthetic <= 5.3e-8 "
+    "|ref_i|, jvec <= 9.1e-4 |ref_i|, e/h-fields <= 5e-3 of their "
+    "threshold, i.e. margins >= 190 / 33 / 200.  gradient / jtvec are "
+    "compared in the max-norm only: their solver noise is 1.4e-4 of the "
+    "max-norm and up to 31 % per cell in the small cells, a per-cell "
+    "threshold with margin would be weaker than the max-norm one.  On the "
+    "pinned tree the results were bit-identical in all explored histories",
     "clean() keeps the observed data and the model; replacing the model is "
     "`sim.model = new` followed by clean('all') or clean('computed') "
-    "(gridding 'same', 'input', 'dict': grids do not depend on the model)",
+    "(gridding 'same', 'input', 'dict': the grids do not depend on the "
+    "model)",
     "a copy of a file-based simulation shares the files of its original by "
-    "design (to_file docstring), so no clean / recomputation is made on one "
-    "of the two while the other is still used",
+    "design (to_file docstring: 'those files will remain there'), so no "
+    "clean / recomputation is made on one of the two while the other is "
+    "still used",
+    "solver info: info['tol'] is documented in emg3d.solve; the one of the "
+    "back-propagated fields is read from the private _dict_bfield_info "
+    "(skipped if absent)",
 ]
 SHARDS = {'quick': 1, 'thorough': 16}
 
@@ -72,22 +89,26 @@ WHATS_CLEAN = ['computed', 'keepresults', 'all']
 WHATS_STORE = ['computed', 'results', 'all', 'plain']
 FORMATS = ['h5', 'npz', 'json']
 
-# Generator branches that make emg3d fail on the unchanged tree (genuine
-# violations of the property, see /tmp/audit/C12_finding.md).  They are
-# switched off so that the check is quiet until emg3d is repaired; set to
-# True to rediscover them / after the repair.
-#  - gridding='dict': clean('keepresults'|'all') re-initiates the
-#    user-provided `_dict_grid` with None's, the next computation raises
-#    TypeError (construct_mesh() missing arguments).
+# Generator branches that found genuine violations when they were added
+# (round-3 audit; stand-alone reproducers in /tmp/audit/C12_finding.md, now
+# repaired in emg3d and kept as regression replays findings/C12/
+# dict_grid_clean_history.json and observed_stale_misfit.json).  Set a flag
+# to False to keep the check quiet on a tree that lacks the repair.
+#  - gridding='dict': clean('keepresults'|'all') re-initiated the
+#    user-provided `_dict_grid` with None's, the next computation raised
+#    TypeError (construct_mesh() missing arguments); fixed by 1a0a38f.
 ENABLE_GRIDDING_DICT = True
 #  - compute(observed=True, add_noise=False) after misfit/gradient: the
 #    cached misfit, gradient, residual and weights of the OLD observed data
-#    are returned.
+#    were returned; fixed by c252246.
 ENABLE_OBSERVE = True
 
 # per-entry thresholds: what -> (rtol on |ref_i|, floor on max|ref|)
-PER_ENTRY = {'synthetic': (1e-5, 0.0), 'jvec': (1e-2, 0.0),
-             'efield': (1e-5, 1e-7), 'hfield': (1e-5, 1e-7)}
+# and whether the threshold is widened by the measured solver noise (not for
+# jvec: two more tightly solved simulations per model and vector are too
+# expensive for the quick tier; its fixed threshold has a measured margin)
+PER_ENTRY = {'synthetic': (1e-5, 0.0, True), 'jvec': (3e-2, 0.0, False),
+             'efield': (1e-5, 1e-7, True), 'hfield': (1e-5, 1e-7, True)}
 # ... widened to NOISE_FACTOR x the measured solver noise of the entry, but
 # never beyond NOISE_CAP x |ref_i| + floor (so that a wrong noise estimate
 # cannot blind the comparison).
@@ -358,6 +379,12 @@ class Runner:
         except (Violation, HarnessError):
             raise
         except Exception as e:
+            if isinstance(e, MemoryError) or (
+                    isinstance(e, OSError) and
+                    os.path.join('.cache', 'numba') in str(e)):
+                # not the code under test: the numba cache directory of this
+                # tree was removed by a concurrent run / out of memory
+                raise HarnessError(f"{type(e).__name__}: {str(e)[:300]}")
             v = exception_to_violation(e)
             if v is None:
                 raise
@@ -401,10 +428,10 @@ class Runner:
                 f"(rel {diff/max(scale, 1e-300):.2e}); history "
                 f"{self.hist()}")
         if what in PER_ENTRY and np.any(~nan_r):
-            rtol, floor = PER_ENTRY[what]
-            thr = np.maximum(
-                rtol*np.abs(ref) + floor*scale,
-                np.minimum(
+            rtol, floor, widen = PER_ENTRY[what]
+            thr = rtol*np.abs(ref) + floor*scale
+            if widen:
+                thr = np.maximum(thr, np.minimum(
                     NOISE_FACTOR*_noise(self.prob, self.variant, refname),
                     NOISE_CAP*np.abs(ref) + floor*scale))
             d = np.abs(got - ref)
@@ -447,21 +474,32 @@ class Runner:
 
     def _check_options(self, new, how):
         """Options of a copy / reloaded simulation = those of a fresh one."""
-        f = _fresh(self.prob, self.variant, self.file_dir)
+        if 'options' not in self.prob:
+            f = _fresh(self.prob, 'A')
+            self.prob['options'] = {
+                **{name: getattr(f, name) for name in [
+                    'tol_forward', 'tol_gradient', 'receiver_interpolation',
+                    'gridding', 'max_workers', 'layered', 'verb']},
+                'solver_opts': {k: v for k, v in f.solver_opts.items()
+                                if k != 'tol'},
+                'noise_floor': f.survey.noise_floor,
+                'relative_error': f.survey.relative_error}
+        want = dict(self.prob['options'])
+        want['file_dir'] = (os.path.abspath(self.file_dir)
+                            if self.file_dir else None)
         bad = []
         for name in ['tol_forward', 'tol_gradient', 'receiver_interpolation',
                      'gridding', 'max_workers', 'file_dir', 'layered',
                      'verb']:
-            if getattr(new, name) != getattr(f, name):
+            if getattr(new, name) != want[name]:
                 bad.append(f"{name}: {getattr(new, name)!r} != "
-                           f"{getattr(f, name)!r}")
+                           f"{want[name]!r}")
         so_n = {k: v for k, v in new.solver_opts.items() if k != 'tol'}
-        so_f = {k: v for k, v in f.solver_opts.items() if k != 'tol'}
-        if so_n != so_f:
-            bad.append(f"solver_opts: {so_n} != {so_f}")
+        if so_n != want['solver_opts']:
+            bad.append(f"solver_opts: {so_n} != {want['solver_opts']}")
         for name in ['noise_floor', 'relative_error']:
-            if not _same_bc(getattr(new.survey, name),
-                            getattr(f.survey, name), f.survey.shape):
+            if not _same_bc(getattr(new.survey, name), want[name],
+                            new.survey.shape):
                 bad.append(f"survey.{name}")
         if bad:
             raise Violation(
@@ -638,7 +676,6 @@ class Runner:
             o.model = self.prob['models'][other].copy()
             o.clean('all')
             _ = o.gradient
-            o.jtvec(self.prob['w'][1])
         self._mutate(o, clean=False)
         o.solver_opts['maxit'] = 1
         if o.model.property_z is not None:
@@ -697,6 +734,7 @@ class HistoryMachine(RuleBasedStateMachine):
     ctx = None
     sub = 'history'
     skip = set()
+    quick = False    # set by run()
 
     def __init__(self):
         super().__init__()
@@ -711,7 +749,11 @@ class HistoryMachine(RuleBasedStateMachine):
                 gridding=st.sampled_from(_griddings()))
     def init(self, case, file, gridding):
         # the 'rich' survey goes with the non-default griddings (one set of
-        # fresh references per problem; keeps the quick tier affordable)
+        # fresh references per problem; keeps the quick tier affordable); for
+        # the same reason the quick tier has 'input' only with the isotropic
+        # and 'dict' only with the VTI problem
+        if self.quick and gridding != 'same':
+            case = 'isotropic' if gridding == 'input' else 'VTI'
         self.config = {'case': case, 'file': file, 'gridding': gridding,
                        'survey': 'plain' if gridding == 'same' else 'rich'}
         self.runner = Runner(self.config, self.rec)
@@ -862,6 +904,9 @@ OPS_QUICK = [['clean', 'computed'], ['clean', 'keepresults'],
              ['copy', 'all'], ['dict', 'computed'],
              ['file', 'npz', 'computed'], ['file', 'json', 'results'],
              ['jvec']]
+# with `observe`: in place of copy('all') (same code path as copy('computed'))
+OPS_QUICK_OBS = [(['observe'] if o == ['copy', 'all'] else o)
+                 for o in OPS_QUICK]
 OPS_FULL = ([['clean', w] for w in WHATS_CLEAN] +
             [['copy', w] for w in WHATS_STORE] +
             [['dict', w] for w in WHATS_STORE] +
@@ -873,39 +918,55 @@ OPS_FULL = ([['clean', w] for w in WHATS_CLEAN] +
 PREFIXES = [[['gradient']], [['compute']], [['gradient']],
             [['efield', 1, 0, 'float']], [['gradient']], [['jtvec', 1, 'da']],
             [['gradient']], []]
-# third query after misfit + gradient, rotated
+# third step after misfit + gradient, rotated (the solver-free ones more
+# often than jvec / jtvec: cost); a fork = independence of a copy / of a
+# simulation made from to_dict() without deep copy in the final state
 SUFFIXES = [[['jvec', 1, 'nd']], [['hfield', 0, 1, 'float']],
-            [['jtvec', 1, 'nd']], [['efield', 1, 1, 'key']],
-            [['jvec', 0, '4d']], [['synthetic']], [['jtvec', 0, 'da']]]
+            [['fork', 'dictref', 'computed']],
+            [['efield', 1, 1, 'key']], [], [['synthetic']],
+            [['jtvec', 1, 'da']], [['hfield', 1, 0, 'key']],
+            [['fork', 'copy', 'all']],
+            [['efield', 0, 1, 'float']], [['fork', 'dictref', 'results']],
+            [['synthetic']], []]
 
 
-def pair_configs():
+def pair_configs(quick):
     rich = {'gridding': 'input', 'survey': 'rich'}
     out = [{'case': 'isotropic', 'file': False},
            {'case': 'VTI', 'file': False},
            {'case': 'isotropic', 'file': False, **rich},
-           {'case': 'VTI', 'file': True},
+           {'case': 'VTI', 'file': False},
            {'case': 'isotropic', 'file': False},
-           {'case': 'VTI', 'file': False, **rich},
-           {'case': 'isotropic', 'file': True, **rich}]
+           {'case': 'isotropic' if quick else 'VTI', 'file': False, **rich},
+           {'case': 'isotropic', 'file': False},
+           {'case': 'VTI', 'file': False},
+           {'case': 'isotropic', 'file': False}]
     if ENABLE_GRIDDING_DICT:
         rich = {'gridding': 'dict', 'survey': 'rich'}
-        out += [{'case': 'isotropic', 'file': False, **rich},
-                {'case': 'VTI', 'file': False, **rich}]
+        out[3].update(rich)
+        if quick:
+            out[6].update({'case': 'VTI', **rich})
+        else:
+            out[6].update(rich)
     return out
 
 
 def pair_specs(ops):
     ops = list(ops)
-    if ENABLE_OBSERVE:
+    if ENABLE_OBSERVE and ops == OPS_QUICK:
+        ops = OPS_QUICK_OBS
+    elif ENABLE_OBSERVE:
         ops = ops + [['observe']]
-    configs = pair_configs()
+    configs = pair_configs(ops == OPS_QUICK_OBS or ops == OPS_QUICK)
     out = []
     k = 0
     for a in ops:
         for b in ops:
             k += 1
-            out.append({'config': dict(configs[k % len(configs)]),
+            config = dict(configs[k % len(configs)])
+            # file based: five times the cost of in-memory, one in 19
+            config['file'] = k % 19 == 7
+            out.append({'config': config,
                         'history': PREFIXES[k % len(PREFIXES)] + [a, b] +
                         [['misfit'], ['gradient']] +
                         SUFFIXES[k % len(SUFFIXES)]})
@@ -917,7 +978,8 @@ SUBS = {'history': replay_history, 'pairs': replay_history}
 
 def run(ctx):
     ctx.regression(SUBS)
-    ctx.machine('history', HistoryMachine, ctx.n(80, 400), 8,
+    HistoryMachine.quick = ctx.quick
+    ctx.machine('history', HistoryMachine, ctx.n(40, 400), 8,
                 shrink=True)
     ctx.enumerate('pairs', pair_specs(OPS_QUICK if ctx.quick else OPS_FULL),
                   replay_history, exhaustive=True)
